@@ -21,8 +21,12 @@ type Driver struct {
 	// FailIf decides whether the statement fails (called with the text and the 0-based call index).
 	FailIf func(text string, call int) bool
 	Dirty  bool
+	OnExec func(Exec)
 	calls  int
 }
+
+// ResetCalls restarts the per-run call counter.
+func (d *Driver) ResetCalls() { d.calls = 0 }
 
 type Exec struct {
 	Text string `json:"text"`
@@ -36,9 +40,15 @@ func (d *Driver) ExecContext(_ context.Context, q string, _ ...any) (sql.Result,
 	d.calls++
 	if d.FailIf != nil && d.FailIf(q, i) {
 		d.Log = append(d.Log, Exec{q, false})
+		if d.OnExec != nil {
+			d.OnExec(Exec{q, false})
+		}
 		return nil, ErrInjected
 	}
 	d.Log = append(d.Log, Exec{q, true})
+	if d.OnExec != nil {
+		d.OnExec(Exec{q, true})
+	}
 	return nil, nil
 }
 
@@ -68,6 +78,7 @@ type Revs struct {
 	// FailWrite decides whether write number n (0-based, global) fails. The row is not stored then.
 	FailWrite func(n int, r *migrate.Revision) bool
 	WriteLog  []migrate.Revision
+	OnWrite   func(n int, r *migrate.Revision, failed bool)
 }
 
 var ErrWrite = errors.New("injected revision write failure")
@@ -105,7 +116,11 @@ func (r *Revs) ReadRevision(_ context.Context, v string) (*migrate.Revision, err
 func (r *Revs) WriteRevision(_ context.Context, x *migrate.Revision) error {
 	n := r.Writes
 	r.Writes++
-	if r.FailWrite != nil && r.FailWrite(n, x) {
+	failed := r.FailWrite != nil && r.FailWrite(n, x)
+	if r.OnWrite != nil {
+		r.OnWrite(n, x, failed)
+	}
+	if failed {
 		return fmt.Errorf("%w (write #%d)", ErrWrite, n)
 	}
 	r.M[x.Version] = cp(x)
